@@ -183,6 +183,13 @@ ldb_set_current_file(const char *dbname, uint64_t desc_number) {
   if (rc == LDB_OK)
     rc = ldb_rename_file(tmp, cur);
 
+  /* Make the switch durable before the caller starts deleting the files
+     the old CURRENT referred to (logs, the previous MANIFEST). This is
+     best effort: once the rename has happened, CURRENT names the new
+     MANIFEST, so a failure here must not be reported as a failed switch. */
+  if (rc == LDB_OK)
+    ldb_sync_dir(dbname);
+
   if (rc != LDB_OK)
     ldb_remove_file(tmp);
 
